@@ -213,14 +213,17 @@ def gen_items(rng, prefix="", allow_services=True):
     """A well-formed item list; names carry [prefix] so that modules do not clash."""
     items, structs, enums = [], [], []
     n = rng.randint(2, 6)
+    # in a third of the descriptions structs and enums draw their names from one pool (N0, N1, ...): over a run the same name is a
+    # struct in one text and an enum in another, which is what state surviving from one parse to the next would trip over
+    pooled = rng.random() < 0.33
     for i in range(n):
         r = rng.random()
         if r < 0.25:
-            name = f"{prefix}E{len(enums)}"
+            name = f"{prefix}N{len(enums) + len(structs)}" if pooled else f"{prefix}E{len(enums)}"
             vals = [(f"V{j}", v) for j, v in enumerate(rng.sample(range(-5, 300), rng.randint(1, 4)))]
             items.append(("enum", name, vals)); enums.append(name)
         else:
-            name = f"{prefix}S{len(structs)}"
+            name = f"{prefix}N{len(enums) + len(structs)}" if pooled else f"{prefix}S{len(structs)}"
             fields = []
             ids = rng.sample(range(0, 30), rng.randint(1, 4))
             for j, fid in enumerate(ids):
